@@ -105,6 +105,23 @@ let c20p line =
     end
   | _ -> "BADCASE"
 
+(* comparisons among values that share a buffer (the halves of split_at, prefixes and suffixes obtained by slice_ref):
+   in the model a value is its bytes, so sharing cannot matter *)
+let c20q line =
+  let b = bytes_of_hex line in
+  if not (valid b) then "INVALID" else begin
+    let x = from_k FStr b in
+    let n = List.length b in
+    String.concat "," (List.filter_map (fun m ->
+      if not (boundary b (nat_of_int m)) then None else
+      match split_at x (nat_of_int m), slice_ref x (z_of_int 0) (nat_of_int m), slice_ref x (z_of_int m) (nat_of_int (n - m)) with
+      | Some (l, r), Some pl, Some pr ->
+        Some (Printf.sprintf "%d:%s%s%s%s%s%s%s%s%s%s" m
+                (bit (eq l x)) (bit (eq x l)) (bit (eq pl x)) (bit (eq r x)) (bit (eq l pl)) (bit (eq pr r))
+                (bit (eq l b)) (bit (eq pl (slice b 0 m))) (ordc (cmp l x)) (ordc (cmp pr x)))
+      | _ -> Some (Printf.sprintf "%d:?" m)) (range 0 n))
+  end
+
 (* ---- scripts ---- *)
 let ints s = List.map int_of_string (String.split_on_char '.' s)
 let parse_src s =
@@ -146,7 +163,7 @@ let c20s line =
 
 let () =
   let f = match Sys.argv.(1) with
-    | "c20" -> c20 | "c20v" -> c20v | "c20e" -> c20e | "c20p" -> c20p | "c20s" -> c20s
+    | "c20" -> c20 | "c20v" -> c20v | "c20e" -> c20e | "c20p" -> c20p | "c20q" -> c20q | "c20s" -> c20s
     | m -> failwith ("unknown mode " ^ m) in
   try while true do
     let line = input_line stdin in
